@@ -133,14 +133,28 @@ ExpectedHdr(d, ss, ex, e) ==
     ELSE LET i == MaxOf(HdrSuppliers(d, ss, e)) IN TagFrom(ss[i], i, d[e], Occ(d, e))
 
 Done == result # Pending
-\* the texture of every entry comes from the LAST source that supplies its path for its occurrence index
-LastWins == (Done /\ result.ok) => \A e \in 1..Len(dest) : result.tex[e][1] = MaxOf(TexSuppliers(dest, srcs, e))
-\* ... and within an ANM source, from the entry with the same occurrence index ("matched in order of appearance")
-InOrder == (Done /\ result.ok) => \A e \in 1..Len(dest) : result.tex[e] = ExpectedTex(dest, srcs, e)
-\* header fields: explicit values survive, others follow the last ANM source that has the entry
-HeaderRule == (Done /\ result.ok) => \A e \in 1..Len(dest) : result.hdr[e] = ExpectedHdr(dest, srcs, expl, e)
+\* The four clauses, per destination entry e, given S = the sources that supply e (computed once per entry):
+\*  LastWins: the texture comes from the LAST source that supplies e's path for e's occurrence index
+LastWinsAt(e, S) == result.tex[e][1] = MaxOf(S)
+\*  InOrder: ... and within an ANM source, from the entry with the same occurrence index ("matched in order of appearance")
+InOrderAt(e, S) == LET i == MaxOf(S) IN result.tex[e] = TagFrom(srcs[i], i, dest[e], Occ(dest, e))
+\*  HeaderRule: explicit values survive, other header fields follow the last ANM source that has the entry
+HeaderRuleAt(e, S) ==
+    LET A == {i \in S : IsAnm(srcs[i])}
+    IN result.hdr[e] = (IF e \in expl THEN ExplicitTag
+                        ELSE IF A = {} THEN NoneTag
+                        ELSE LET i == MaxOf(A) IN TagFrom(srcs[i], i, dest[e], Occ(dest, e)))
+EntryProperty(e) == LET S == TexSuppliers(dest, srcs, e) IN LastWinsAt(e, S) /\ InOrderAt(e, S) /\ HeaderRuleAt(e, S)
+
+LastWins == (Done /\ result.ok) => \A e \in 1..Len(dest) : LastWinsAt(e, TexSuppliers(dest, srcs, e))
+InOrder == (Done /\ result.ok) => \A e \in 1..Len(dest) : InOrderAt(e, TexSuppliers(dest, srcs, e))
+HeaderRule == (Done /\ result.ok) => \A e \in 1..Len(dest) : HeaderRuleAt(e, TexSuppliers(dest, srcs, e))
 \* an entry nobody supplies makes the compilation fail, and only that
 Outcome == Done => (result.ok <=> ExpectedOk(dest, srcs))
+\* LastWins /\ InOrder /\ HeaderRule /\ Outcome evaluated with the suppliers computed once per entry (what the
+\* generator configuration checks on every finalized run; equivalent to the conjunction of the four above)
+Property == Done => /\ (result.ok <=> ExpectedOk(dest, srcs))
+                    /\ result.ok => \A e \in 1..Len(dest) : EntryProperty(e)
 \* at every step: explicit values are never touched, and every soft value names a source already applied
 StepInv == \A e \in 1..Len(work) :
     /\ (e \in expl) => work[e].hdr = Explicit(ExplicitTag)
